@@ -62,7 +62,7 @@ BImplEff(im, bi, a) ==
 
 BSync(e, im, bi) ==
   [vs |-> [i \in 1..NV |-> IF <<"v", i>> \in e.free THEN AbsV(im[i]) ELSE e.vs[i]],
-   bs |-> [i \in 1..NB |-> IF <<"b", i>> \in e.free THEN AbsB(bi[i]) ELSE e.bs[i]]]
+   bs |-> [i \in 1..NB |-> IF <<"b", i>> \in e.free THEN AbsB(bi[i]) ELSE e.bs[i]], da |-> e.da]
 
 BInit == IInit /\ bimpl = [i \in 1..NB |-> DeadBI]
 
